@@ -144,22 +144,35 @@ def record_job(test, outname, env, timeout=2400):
     return job
 
 
-def validate_job(tracefile, name, dev=(), check=True, lag=0):
+def validate_job(tracefile, name, dev=(), check=True, lag=0, timeout=3000, fallback_lag=None):
     def job(c):
         fn = "Trace-%s.cfg" % name
         # TLC reads the trace through IOEnv; the generated cfg goes into the scratch copy of spec/
         e = {"TRACE_FILE": tracefile}
-        res = c.tlc("TraceSystem", fn, files={fn: trace_cfg(dev, check, lag)}, workers=1, env=e, expect_violation=True,
-                    name="TraceSystem-" + name, timeout=3000, queue_dfs=True, dump_trace=False, tags=("HW", "LEN"), heap="4g")
+        used = lag
+        try:
+            res = c.tlc("TraceSystem", fn, files={fn: trace_cfg(dev, check, lag)}, workers=1, env=e, expect_violation=True,
+                        name="TraceSystem-" + name, timeout=timeout, queue_dfs=True, dump_trace=False, tags=("HW", "LEN"),
+                        heap="4g")
+        except vf.Infra as ex:
+            if fallback_lag is None or "timeout" not in str(ex):
+                raise
+            # the search over every order of the silent steps did not finish in time: pruned search instead
+            c.log("full search of %s timed out after %ds, pruned search (lag %d) instead" % (name, timeout, fallback_lag))
+            used = fallback_lag
+            res = c.tlc("TraceSystem", fn, files={fn: trace_cfg(dev, check, fallback_lag)}, workers=1, env=e,
+                        expect_violation=True, name="TraceSystem-" + name, timeout=3000, queue_dfs=True, dump_trace=False,
+                        tags=("HW", "LEN"), heap="4g")
         hw = [o for t, o in res.prints if t == "HW"]
         ln = [o for t, o in res.prints if t == "LEN"]
         events = [json.loads(x) for x in open(tracefile) if x.strip()]
         if res.violated and res.violated != "postcondition":
-            return {"accepted": False, "violated": res.violated, "hw": None, "events": events, "res": res}
+            return {"accepted": False, "violated": res.violated, "hw": None, "events": events, "res": res, "lag": used}
         if not hw or not ln:
             raise vf.Infra("trace validation did not reach its postcondition:\n" + res.out[-3000:])
         ok = hw[-1] == ln[-1] + 1
-        return {"accepted": ok, "violated": None if ok else "rejected", "hw": hw[-1], "events": events, "res": res}
+        return {"accepted": ok, "violated": None if ok else "rejected", "hw": hw[-1], "events": events, "res": res, "lag": used,
+                "states": res.distinct}
     return job
 
 
